@@ -69,6 +69,12 @@ where
         self.allocator.deallocate(packet_id);
     }
 
+    /// Free id intervals in order (verification hook, read-only).
+    #[cfg(feature = "verif-hooks")]
+    pub fn verif_intervals(&self) -> alloc::vec::Vec<(T, T)> {
+        self.allocator.verif_intervals()
+    }
+
     /// Clear all state: all packet IDs become available again.
     pub fn clear(&mut self) {
         self.allocator.clear();
